@@ -16,6 +16,7 @@ global size_of usize == 8;
 //@end
 //@extract sudachi/src/dic/build/lexicon.rs :: struct RawLexiconEntry
 //@end
+//@include specs/entry_strings.rs.inc
 //@include specs/resolve_specs.rs.inc
 
 impl RawLexiconEntry {
